@@ -253,6 +253,8 @@ def worker_main(argv):
     bucket = argv[8] if len(argv) > 8 else None
     shard, nshards, seed = int(shard), int(nshards), int(seed)
     n = None if n == "None" else int(n)
+    if pname.startswith("fuzz_") and bucket is None:
+        shift_bounded_integers()       # before the check module builds its module-level strategies
     mod = load_module(prop)
     part = next(p for p in mod.PARTS if p.name == pname)
     env.setup_paths(part.c_variant)
@@ -312,6 +314,25 @@ def worker_main(argv):
     return 0
 
 
+def shift_bounded_integers():
+    """Work-around for the byte-string provider of hypothesis 6.168 (used by fuzz_one_input): draw_integer
+    compares the raw bits with [min_value, max_value] without adding min_value, so integers(101, 110) is
+    never satisfied (the buffer overruns) and integers(-5, 5) never yields a negative value.  Under the
+    fuzz tier bounded integers(lo, hi) with lo != 0 are drawn as lo + integers(0, hi - lo)."""
+    import hypothesis.strategies as hst
+    orig = hst.integers
+    if getattr(orig, "_verif_shifted", False):
+        return
+
+    def integers(min_value=None, max_value=None):
+        if min_value is not None and max_value is not None and min_value != 0:
+            lo = int(min_value)
+            return orig(0, int(max_value) - lo).map(lambda v, lo=lo: v + lo)
+        return orig(min_value, max_value)
+    integers._verif_shifted = True
+    hst.integers = integers
+
+
 def fuzz_worker(part, one, rec, out, seed, shard, n, tier="quick"):
     """coverage-guided tier: libFuzzer mutates the byte stream that Hypothesis turns into cases.
 
@@ -330,6 +351,7 @@ def fuzz_worker(part, one, rec, out, seed, shard, n, tier="quick"):
             importlib.import_module(m)
     runs = int(n or part.fuzz.get("runs", 20000))
     state = {"k": 0}
+    shift_bounded_integers()
 
     def cb(case):
         one(case)
